@@ -207,6 +207,7 @@ def explore(ctx):
             ctx.violation('read back by a plain YAML parser the dump is {!r}, the projection is {!r}'.format(
                 back, proj)[:400], dict(desc, key='projection:' + repr(v)[:50], text=text[:600]))
     shared_objects(ctx, yaml, yatiml)
+    deep_chains(ctx, yaml, yatiml)
     odd_signatures(ctx, yaml, yatiml)
     answers = ctx.driver(reqs)
     for a, w, d in zip(answers, wants, descs):
@@ -343,6 +344,88 @@ def odd_signatures(ctx, yaml, yatiml):
         elif want is not None and list(data.keys())[:len(want)] != want:
             ctx.violation('{}: the dump has keys {} but the constructor parameters are {}'.format(
                 type(v).__name__, list(data.keys()), want), dict(key='odd-signature-order:' + type(v).__name__))
+
+
+CHAIN_SRC = '''
+import yatiml
+
+class Top:
+    def __init__(self, top_attr: int) -> None:
+        self.top_attr = top_attr
+    @classmethod
+    def _yatiml_sweeten(cls, node: yatiml.Node) -> None:
+        node.unders_to_dashes_in_keys()
+
+class Mid(Top):
+    def __init__(self, top_attr: int, mid_attr: str) -> None:
+        super().__init__(top_attr)
+        self.mid_attr = mid_attr
+    @classmethod
+    def _yatiml_sweeten(cls, node: yatiml.Node) -> None:
+        node.set_attribute('added_by_mid', 1)
+
+class Plain(Mid):
+    def __init__(self, top_attr: int, mid_attr: str, plain_attr: bool) -> None:
+        super().__init__(top_attr, mid_attr)
+        self.plain_attr = plain_attr
+
+class Leaf(Plain):
+    def __init__(self, top_attr: int, mid_attr: str, plain_attr: bool, leaf_attr: float) -> None:
+        super().__init__(top_attr, mid_attr, plain_attr)
+        self.leaf_attr = leaf_attr
+    @classmethod
+    def _yatiml_sweeten(cls, node: yatiml.Node) -> None:
+        node.set_attribute('added_by_leaf', 2)
+'''
+
+
+def deep_chains(ctx, yaml, yatiml):
+    """registered chains three and four levels deep whose sweeten hooks neither commute nor are idempotent
+    (the top one rewrites underscores in the keys present when it runs, lower ones add keys with underscores):
+    the dump is the projection with every registered ancestor's own hook applied exactly once, bases first;
+    the expectation is computed here on plain dictionaries"""
+    import itertools
+    ns = {}
+    exec(CHAIN_SRC, ns)
+    Top, Mid, Plain, Leaf = ns['Top'], ns['Mid'], ns['Plain'], ns['Leaf']
+    hooks = {'Top': lambda d: OrderedDict((k.replace('_', '-'), v) for k, v in d.items()),
+             'Mid': lambda d: OrderedDict(list(d.items()) + [('added_by_mid', 1)]),
+             'Plain': lambda d: d,
+             'Leaf': lambda d: OrderedDict(list(d.items()) + [('added_by_leaf', 2)])}
+    values = [Top(1), Mid(1, 'm'), Plain(1, 'm', True), Leaf(1, 'm', False, 2.5)]
+    order = ['Top', 'Mid', 'Plain', 'Leaf']
+    for k in range(1, 5):
+        for regs in itertools.combinations([Top, Mid, Plain, Leaf], k):
+            try:
+                dumps = yatiml.dumps_function(*regs)
+            except Exception as e:  # noqa
+                ctx.count('deep_chain_create_error:' + type(e).__name__)
+                continue
+            for v in values:
+                if type(v) not in regs:
+                    continue
+                # the chain of registered direct bases, as the rule (C10) has it: stop at an unregistered base
+                chain = []
+                c = type(v)
+                while c in regs:
+                    chain.insert(0, c.__name__)
+                    c = c.__bases__[0]
+                want = OrderedDict((a, getattr(v, a)) for a in
+                                   ['top_attr', 'mid_attr', 'plain_attr', 'leaf_attr'][:order.index(type(v).__name__) + 1])
+                for name in chain:
+                    want = hooks[name](want)
+                try:
+                    got = yaml.safe_load(dumps(v))
+                    got_keys = list(got.items())
+                except Exception as e:  # noqa
+                    got_keys = 'raised {}: {}'.format(type(e).__name__, e)
+                ctx.case(('deep-chain', tuple(r.__name__ for r in regs), type(v).__name__), nontrivial=True)
+                ctx.count('deep_chain_dumps')
+                if got_keys != list(want.items()):
+                    ctx.violation('{} dumped with {} registered gives {!r}; each registered ancestor\'s hook applied once, '
+                                  'bases first, gives {!r}'.format(type(v).__name__, [r.__name__ for r in regs],
+                                                                 got_keys, list(want.items())),
+                                  dict(key='deep-chain:{}:{}'.format(type(v).__name__, len(regs)), classes=CHAIN_SRC))
 
 
 def shared_objects(ctx, yaml, yatiml):
